@@ -710,7 +710,9 @@ func (context *layoutContext) makePage(rootBox bo.BlockLevelBoxITF, pageType uti
 		overflow := context.layoutFootnote(reportedFootnote)
 		if overflow && i != 0 {
 			context.reportFootnote(reportedFootnote)
-			context.reportedFootnotes = context.reportedFootnotes[i:]
+			// this footnote and the following ones (of the list saved
+			// above) wait for the next page
+			context.reportedFootnotes = reportedFootnotes[i:]
 			break
 		}
 	}
